@@ -37,7 +37,7 @@ Definition audited_sites : list audit := [
   mkAudit "x/upgrade/abci.go" "BeginBlocker" KLocalTime "time.Unix" 1 "615f43305dc7cfbc" (Harmless logm);
   mkAudit "x/upgrade/keeper/plan.go" "Keeper.ApplyUpgradePlan" KLocalTime "Time.String" 1 "b0920dd7294ac8fd" (Harmless logm);
   mkAudit "x/upgrade/keeper/plan.go" "Keeper.ApplyUpgradePlan" KLocalTime "time.Unix" 1 "b0920dd7294ac8fd" (Harmless logm);
-  mkAudit "x/recovery/keeper/msg_server.go" "msgServer.RotateRecoveryAddress" KMapRange "txPool.Record" 1 "5c189a74d8c55be2" (Harmless "each pooled record is rewritten in place (FromAddress old -> new) independently of the others: no store write, event, early exit or accumulation inside the loop (commit 6727d50); Keeper.RotateCustodyVotes called next iterates a KV-store prefix (ordered), collects the keys, then rewrites them");
+  mkAudit "x/recovery/keeper/msg_server.go" "msgServer.RotateRecoveryAddress" KMapRange "txPool.Record" 1 "d8a0ee622a51f525" (Harmless "each pooled record is rewritten in place (FromAddress old -> new) independently of the others: no store write, event, early exit or accumulation inside the loop (commit 6727d50); Keeper.RotateCustodyVotes called next iterates a KV-store prefix (ordered), collects the keys, then rewrites them");
   mkAudit "app/app.go" "BlockedAddresses" KMapRange "GetMaccPerms()" 1 "c24df54ec78ba238" (Harmless "fills a membership map");
   mkAudit "app/app.go" "GetMaccPerms" KMapRange "maccPerms" 1 "65321bf763126ecf" (Harmless "copies a map into a map");
   mkAudit "app/app.go" "SekaiApp.ModuleAccountAddrs" KMapRange "maccPerms" 1 "ae662819fb7c73d2" (Harmless "fills a membership map");
